@@ -4,7 +4,7 @@ UNITS = [
        harness="h_floor1_unpack.c", entry="h_floor1_unpack", defines=["VERIF_F1_BOUNDED"],
        unwind_cut=["floor1_unpack.0:3", "floor1_unpack.1:3", "floor1_unpack.2:5", "floor1_unpack.3:3", "floor1_unpack.4:5",
                    "floor1_unpack.5:7", "floor1_unpack.6:7", "qsort.0:7", "qsort.1:7"],
-       reach=2, timeout=900, shards=4, objbits=11,
+       reach=2, timeout=1800, shards=4, objbits=11, tier="thorough",
        bound="<= 2 partitions, <= 2 classes, <= 4 subbooks per class, <= 4 transmitted posts (loops cut); all field values symbolic; qsort modelled by insertion sort",
        note="floor 1 setup: field ranges, book indices below the book count, posts below the range end and pairwise distinct INCLUDING the two implicit posts; no leak on reject"),
 ]
